@@ -5,6 +5,7 @@ package interp
 // resident solver processes.
 
 import (
+	"os"
 	"bufio"
 	"fmt"
 	"io"
@@ -516,6 +517,9 @@ func (p *solverProc) roundTrip(text string, hard time.Duration) ([]string, bool)
 				out = append(out, ln)
 			}
 		case <-timer.C:
+			if d := os.Getenv("VERIF_DUMP_TIMEOUT"); d != "" {
+				os.WriteFile(fmt.Sprintf("%s/timeout-%s-%d.smt2", d, strings.ReplaceAll(p.key, "/", "_"), time.Now().UnixNano()), []byte(text), 0o644)
+			}
 			p.kill()
 			return out, false
 		}
